@@ -1017,6 +1017,26 @@ def mutant_items(tier):
             if m not in seen:
                 seen.add(m)
                 items.append(('btokSM.unwrap', dict(what='cmd', key=K.SMKEY, ctr=1, apdu=m), 'smcmd(%d,%d)' % (cl, rl), label))
+        # Lc* overshooting the input by 1..8 octets while the real remainder is a run of COMPLETE protected objects (optionally
+        # one more octet): a decoder that bounds its inner TLV parsing by the declared Lc* instead of the input reads behind it
+        ends = []; pos = 0
+        for r in parse_forest(code):
+            pos += len(r.ser()); ends.append(pos)
+        for end in ends:
+            for extra in (0, 1):
+                part = code[:end + extra]
+                if len(part) > len(code):
+                    continue
+                for d in range(1, 9):
+                    L = len(part) + d
+                    for lab, lc in (('short', bytes([L & 255]) if L < 256 else None), ('extended', b'\x00' + L.to_bytes(2, 'big'))):
+                        if lc is None:
+                            continue
+                        m = w[:4] + lc + part
+                        if m not in seen and len(m) >= 15:
+                            seen.add(m)
+                            items.append(('btokSM.unwrap', dict(what='cmd', key=K.SMKEY, ctr=1, apdu=m), 'smcmd(%d,%d)' % (cl, rl),
+                                          'lc:overshoot-%s objects=%d%s' % (lab, ends.index(end) + 1, '+1octet' if extra else '')))
     for n in (0, 1, 16, 243, 244, 300) if th else (0, 16, 244):
         w = S.sm_resp_wrap(K.SMKEY, 2, 0x90, 0x00, K.data(n, 6))
         for label, m in mutants(w[:-2], tier, forest_suffix=w[-2:]):
